@@ -39,6 +39,10 @@ def obligations(r, tier, seed):
             p1, p2, z = k.pose(T, "p1"), k.pose(T, "p2"), k.pose(T, "z")
             e = make_odometry(k, T, [p1, p2], z)
             k.check(e.is_valid(), "edge-valid")
+            if T == "SE3" and k.mode == "num":
+                # the error picks the representative of the error quaternion with positive scalar part: it is discontinuous on
+                # the measure-zero surface w = 0, and the finite-difference stencil of the numeric reference must not cross it
+                k.assume(abs(float((z - (p2 - p1))[6])) > 0.3, "away from the sign-change surface of the error quaternion")
             J = e.calc_jacobians()
             k.check(len(J) == 2, "two-jacobians")
             c = POSE_C[T]
